@@ -12,6 +12,7 @@ import os
 THEOREMS = ["IstioModel.C02.Theorems", "IstioModel.C02.QueueTheorems", "IstioModel.C02.QueueRefinement",
             "IstioModel.C02.DebounceTheorems", "IstioModel.C02.SenderTheorems", "IstioModel.C02.PipeTheorems", "IstioModel.C02.PipeSnapshot"]
 STREAMS = ("merge", "queue", "debounce", "sender", "server")
+TIMING = ("debounce", "sender", "server")
 
 
 def clause_of(v):
@@ -157,7 +158,17 @@ def timing_eval(ctx, stream, ops_path, tag):
             if len(res) < len(lines2):
                 mism = Mismatch(stream, ops[-1:], 0, "<trace acceptance>", "<lean driver stopped: %s>" % err[-300:], nc)
             else:
-                ctx.count("debounce.traces.accepted", sum(1 for a, b in zip(lines2, res) if a.startswith("trace") and b.startswith("accept")))
+                if tag == "run":
+                    ctx.count("debounce.traces.accepted", sum(1 for a, b in zip(lines2, res) if a.startswith("trace") and b.startswith("accept")))
+                    # which branches of pushWorker / the select loop the real code took (read off the observed times)
+                    for a, b in zip(lines2, res):
+                        if a.startswith("trace") and b.startswith("accept"):
+                            for kv in b.split()[1:]:
+                                k_, _, v_ = kv.partition("=")
+                                if k_ in ("quiet", "max", "during", "rearm", "bypass") and v_.isdigit() and int(v_):
+                                    ctx.count("debounce.branch." + {"quiet": "push-after-quiet-period", "max": "push-at-debounceMax",
+                                                                    "during": "batch-began-while-a-push-was-running",
+                                                                    "rearm": "timer-re-armed(inferred)", "bypass": "eds-bypass-push"}[k_], int(v_))
                 cn = 0
                 for idx, (a, b) in enumerate(zip(lines2, res)):
                     if a.startswith("case"):
@@ -166,7 +177,38 @@ def timing_eval(ctx, stream, ops_path, tag):
                         mism = Mismatch(stream, cases[cn - 1], len(cases[cn - 1]) - 1,
                                         "observed " + a[:3000], "the observed trace is not a run of the debounce model: " + b, cn)
                         break
+    if tag == "run" and stream == "sender":
+        branch_counters_sender(ctx, ops, out)
     return True, nc, nops, mism, fails, impl, log
+
+
+def branch_counters_sender(ctx, ops, out):
+    """Which exit each flight of the real doSendPushes took (read off the `proc=` column before/after the op)."""
+    def proc(line):
+        for t in line.split():
+            if t.startswith("proc="):
+                return set(x.split(":")[0] for x in t[5:].split(";") if x and x != "-")
+        return None
+    prev = set()
+    for o, a in zip(ops, out):
+        if o.startswith("case"):
+            prev = set()
+            continue
+        cur = proc(a)
+        if cur is None:
+            continue
+        f = o.split()
+        if f[0] == "pushdone":
+            ctx.count("sender.branch.exit-after-push(done)")
+        elif f[0] == "close" and len(f) > 1 and f[1] in prev and f[1] not in cur:
+            ctx.count("sender.branch.exit-on-closed-stream")
+        elif f[0] == "stop" and prev - cur:
+            ctx.count("sender.branch.exit-on-server-stop", len(prev - cur))
+        elif f[0] == "shut" and prev:
+            ctx.count("sender.branch.queue-shutdown-with-flights", len(prev))
+        if "down=1" in a and f[0] == "shut":
+            ctx.count("sender.branch.loop-exit-on-shutdown")
+        prev = cur
 
 
 def timing_shrink(ctx, stream, case_lines, rounds=30):
@@ -314,6 +356,28 @@ def stress(ctx):
             return
 
 
+def one_lake_build(ctx):
+    """lean_prove and build_drv start `lake build` three times (theorem modules, the audit command, the driver); under
+    machine load every start costs tens of seconds.  The first call builds all targets of this check in one
+    invocation; the later calls find their targets built and return at once."""
+    orig = ctx.lake_build
+    built = set()
+    everything = THEOREMS + ["IstioModel.Common.Audit", "drv_c02"]
+
+    def lb(targets, timeout=3000):
+        if set(targets) <= built:
+            return 0, ""
+        want = list(dict.fromkeys(list(targets) + everything))
+        rc, out = orig(want, timeout)
+        if rc == 0:
+            built.update(want)
+            return rc, out
+        # say which of the asked targets is broken: build only those
+        return orig(list(targets), timeout)
+
+    ctx.lake_build = lb
+
+
 def robust(ctx, fn, *a, **kw):
     """harness/bin is shared with the checks of other properties running concurrently; if our binary
     disappears under us, rebuild it and run the step again (a machinery hiccup, not a verdict)."""
@@ -368,21 +432,29 @@ def run(ctx):
                 "queue: 1-4 connections, 3-80 Enqueue/Dequeue/MarkDone/ShutDown/Pending ops on a real PushQueue (a third of the enqueues "
                 "hand one shared request to every connection), drained at the end; "
                 "debounce: 1-7 sends (some with a snapshot, some endpoints-only with EDS debounce off) with sleeps around the quiet period and a "
-                "held pushFn (40% of cases put sends inside a running push); the observed event trace must be accepted as a run of the model; "
+                "held pushFn (40% of cases put sends inside a running push); one case in eight sends copies of a request four to five times "
+                "closer together than the quiet period for three times debounceMax (a push has to be entered while they keep coming); the "
+                "observed event trace must be accepted as a run of the model; "
                 "sender: real doSendPushes, semaphore capacity 1-3, 1-4 connections (odd ids delta), enq/deliver/pushdone/close/stop/shut in any "
                 "order, rarely a nil request; "
-                "server: a real DiscoveryServer, 1-6 real stream loops (SotW and delta), bursts of ConfigUpdate, a connection parked between "
-                "addCon and MarkInitialized, Send failing, Send blocking, clients leaving (idle, blocked, parked mid-initialisation); updates "
-                "mostly name keys of their own, a third repeat the previous keys (also alone in a sync window); expected and seen are "
-                "counted per sync window (the model takes a ghost `mark` at every sync); snapshot versions per connection observed; "
+                "server: a real DiscoveryServer (push throttle 100, or 1-2 in a quarter of the cases; EDS debounce off in a sixth), 1-6 real "
+                "stream loops (SotW and delta), bursts of 1-4 or 11-18 ConfigUpdate calls (config keys, key-less forced, addresses / waypoints "
+                "only, endpoints only), 2-6 concurrent ConfigUpdate callers, ProxyUpdate and the debug AdsPushAll at any point (also for a "
+                "connection stuck in Send with a newer snapshot waiting), client ACK traffic, Connection.Stop() while pushes are on their way and "
+                "while the stream loop is busy answering a request with a push event waiting for it, a connection parked between addCon and "
+                "MarkInitialized, Send failing, Send blocking, clients leaving (idle, blocked, parked mid-initialisation), the same node "
+                "re-connecting while its old stream ends, the push queue shut down with live stream loops; updates mostly name keys of their "
+                "own, a third repeat the previous keys (also alone in a sync window); expected and seen (c:/a:/w:/forced facts) are counted per "
+                "sync window (the model takes a ghost `mark` at every sync); snapshot versions per connection observed; "
                 "stress: 8 producers x 4 workers on one real queue; "
                 "distinct = hash of (ops, implementation outputs); non-trivial = at least one op")
     ctx.assumptions = [
         "every PushQueue method is one atomic step (holds the queue mutex throughout) - exercised by the concurrent stress run, not proved",
         "callers do not write to a PushRequest after handing it to ConfigUpdate / Enqueue, and hand a fresh request (fresh maps) to every "
         "ConfigUpdate call (the queue itself is proved never to write to a request; debounce merges in place into the first request of a batch)",
-        "every request handed to PushQueue.Enqueue carries a snapshot (Push != nil): true for Push/AdsPushAll/ProxyUpdate, the only "
-        "callers; without it CopyMerge forgets the older snapshot (copyMerge_push_nil_witness)",
+        "every request handed to PushQueue.Enqueue carries a snapshot (Push != nil) that is at least as new as every one enqueued before: "
+        "true for Push/AdsPushAll/ProxyUpdate, the only callers (all three are run by the server stream, which checks the versions each "
+        "connection is pushed with); without it CopyMerge forgets the older / keeps the staler snapshot (copyMerge_push_nil_witness)",
         "only doSendPushes calls Dequeue and only its three exit paths (through done()) call MarkDone",
         "'newest snapshot' means the snapshot of the request enqueued last on that connection; it is the newest one because the Push calls "
         "(each runs StartPush synchronously) do not overlap: proved for the debounced path (debounced_pushes_sequential); with "
@@ -391,9 +463,13 @@ def run(ctx):
         "nobody enqueues a nil request (it would crash doSendPushes: nil_enqueue_crashes_witness; sender_never_crashes otherwise)",
         "pipeline_no_loss is stated for the connections registered from the start (unregistering allowed); a connection registering "
         "later, incl. the addCon-before-MarkInitialized window, is covered by the real-server stream only",
-        "liveness beyond 'an enabled releasing exit always exists' (Go scheduler fairness, timers eventually firing, pushFn / "
-        "pushConnection returning, a closed gRPC stream cancelling its context) is assumed",
+        "liveness is proved per stage only (debounce_eventually, debounce_max_delay, loop_can_proceed, flight_exit_releases; every stage "
+        "step is a step of the composition: chan_head_can_be_received, entered_push_can_start, debounce_step_is_pipeline_step, "
+        "sender_step_is_pipeline_step); there is no end-to-end 'eventually delivered' theorem: Go scheduler fairness, timers eventually "
+        "firing, pushFn / pushConnection returning, clients reading, a closed gRPC stream cancelling its context are assumed - end to "
+        "end, 'comes to rest and everything was delivered' is what the server stream observes on the real code",
     ]
+    one_lake_build(ctx)
     proved = ctx.lean_prove(THEOREMS)
     if not ctx.build_drv():
         return
@@ -428,11 +504,44 @@ def replay(ctx, path):
     if not ops:
         ctx.log("replay file has no ops; re-running the full check")
         return run(ctx)
-    if not (ctx.build_drv() and ctx.go_build()):
+    one_lake_build(ctx)
+    if not (ctx.build_drv() and build_with_retry(ctx)):
         return
     p = os.path.join(ctx.work, "replay.ops")
     with open(p, "w") as f:
         f.write("\n".join(ops) + "\n")
+    if stream in TIMING:
+        # same judgement as the check run (timing_stream): a `verdict=FAIL:<clause>` in the answer of the real code is
+        # the violation, whatever a second (racy) oracle run says; a disagreement counts when it shows twice
+        ran_any, mcount, last = False, 0, None
+        for k in range(3):
+            ran, nc, nops, m, fv, impl, log = robust(ctx, timing_eval, ctx, stream, p, "replay")
+            if not ran:
+                continue
+            if not ran_any:
+                ctx.account(stream, p, impl)
+            ran_any = True
+            if fv:
+                cl, line = fv[0]
+                clause = line.split("verdict=FAIL:")[1].split()[0].split("@")[0]
+                ctx.violation("%s:%s" % (stream, clause),
+                              "push-request %s handling violates clause '%s' on the real code" % (stream, clause),
+                              {"stream": stream, "ops": ops, "harness_answer": line, "source": "replay"}, True)
+                return
+            if m is None:
+                break
+            mcount, last = mcount + 1, m
+            if mcount == 2:
+                break
+        if not ran_any:
+            ctx.tie_broken("stream-run:%s" % stream, log)
+        elif mcount == 2:
+            found = oracle(ctx, stream, ops, last.to_json(), only_case=True)
+            if found:
+                ctx.violation(found[0], found[1], found[2], True)
+            else:
+                ctx.tie_broken("correspondence:%s" % stream, "replayed case still differs", last.to_json())
+        return
     ok, impl, model, log = ctx.run_pair(stream, p, "replay")
     m = ctx.compare(stream, p, impl, model)[2] if ok else None
     found = oracle(ctx, stream, ops, m.to_json() if m else None, only_case=True)
@@ -459,16 +568,22 @@ MANIFEST = {
                    "notification accepted since the mark is, for every connection registered from the start, in the channel / pending / "
                    "being pushed / waiting in the queue / parked / received by its stream loop since the mark / given up only for a closed "
                    "stream or a stopping server; pipeline_newest_snapshot: the request waiting for a connection (else its parked event) "
-                   "carries the newest push context. NOT covered by the composed theorems: a connection that registers later (`register`, "
+                   "carries a push context at least as new as the newest published one (ProxyUpdate / AdsPushAll, the other producers of "
+                   "the queue, are events of the composition; a stream loop may return at any moment it holds no event - Connection.Stop - "
+                   "and the flight waiting for it then takes the closed-stream exit); debounce_max_delay: once a batch is debounceMax old, "
+                   "further updates cannot postpone its push beyond the next timer. Liveness is per stage only (no end-to-end 'eventually "
+                   "delivered' theorem). NOT covered by the composed theorems: a connection that registers later (`register`, "
                    "i.e. every reconnect and every new proxy) - that case is covered by the real-server stream only. "
                    "Tied to /repo on every run by differential runs against the real functions, incl. a real DiscoveryServer with real "
-                   "stream loops (done() after a failing Send, AllClients incl. connections mid-initialisation, delta and SotW)."),
+                   "stream loops (done() after a failing Send, AllClients incl. connections mid-initialisation, delta and SotW, "
+                   "ProxyUpdate, AdsPushAll, Connection.Stop, queue shutdown, saturated throttle, EDS debounce off)."),
     "level_note": ("Trusted: Lean kernel + {propext, Classical.choice, Quot.sound}; the hand-written models (tied by differential testing: "
                    "merge and queue exactly incl. object identities; debounce by trace acceptance - the observed event trace must be a run of "
                    "the model - plus schedule-independent facts; doSendPushes and the real server at rest); hook files zz_verif_c02.go, "
                    "zz_verif_c04.go, zz_verif_e2e.go (gate). Assumed, not proved: atomicity of the queue methods under their mutex "
                    "(stress-tested), scheduler/timer fairness for liveness, callers not writing to a request after hand-off, Push != nil and "
-                   "request != nil on Enqueue, Push calls not overlapping (false with EDS debounce switched off). Gaps: the composed theorem "
+                   "request != nil on Enqueue, Push calls not overlapping (false with EDS debounce switched off). Liveness: per-stage theorems only, "
+                   "chained end to end by observation of the real server (rest is reached, everything delivered), not by a theorem. Gaps: the composed theorem "
                    "covers connections registered from the start only (later registration: tie only); pushConnection itself and gRPC are "
                    "not modelled (the stream loop is 'receive event, then done()'); a full push channel (ConfigUpdate blocks) is modelled "
                    "but a ConfigUpdate that drops on a full channel would not be caught by the tie."),
